@@ -14,6 +14,11 @@ ASSUMPTIONS = [
 ]
 
 CLAUSES = {
+    "direct:overwrite": "exactly_once",
+    "direct:reset": "exactly_once",          # Session.Reset without clean session wipes stored inbound messages
+    "direct:delivery": "qos01",              # a callback is set but the message just received was not passed to it
+    "direct:ackheld": "no_ack_on_error",     # an acknowledgement left the client while the callback was still running
+    "direct:resend": "pubrec_always",
     "pubrec_always": "pubrec_always",
     "no_ack_on_error": "no_ack_on_error",
     "error_closes": "no_ack_on_error",       # second half of the clause: ... and the connection is closed
